@@ -162,6 +162,9 @@ impl IncanLanguageServer {
         let mut result: Vec<(String, Program)> = Vec::new();
         let mut entry_diags: Vec<Diagnostic> = Vec::new();
         let mut seen: HashSet<PathBuf> = HashSet::new();
+        // The entry document is not a dependency of itself: an import cycle that leads back to it must not load
+        // the on-disk copy of the file that is being analyzed.
+        seen.insert(entry_path.canonicalize().unwrap_or(entry_path.clone()));
         let mut stack: Vec<(PathBuf, PathBuf, Span)> = Vec::new(); // (module_path, base_dir_for_that_module, import_span_in_entry)
 
         // Seed stack with direct imports from the entry AST
